@@ -11,6 +11,7 @@ import (
 	"github.com/google/martian/v3"
 	_ "github.com/google/martian/v3/fifo"
 	_ "github.com/google/martian/v3/header"
+	_ "github.com/google/martian/v3/pingback"
 	_ "github.com/google/martian/v3/status"
 	"github.com/google/martian/v3/zzverif/vf"
 )
@@ -18,6 +19,7 @@ import (
 const hv = `{"header.Verifier": {"name": "X-Exp", "value": "1"}}`
 const hv2 = `{"header.Verifier": {"name": "X-Exp2", "value": "1"}}`
 const sv = `{"status.Verifier": {"statusCode": 200}}`
+const pb = `{"pingback.Verifier": {"scheme": "http", "host": "h", "path": "/ping"}}`
 const tr = `{"header.Append": {"name": "X-Trace", "value": "t"}}`
 
 // vmodel describes one verifier of a configuration: when it is evaluated.
@@ -26,6 +28,8 @@ type vmodel struct {
 	second   bool // checks X-Exp2 instead of X-Exp
 	onTrue   bool // evaluated only when the filter condition holds
 	onFalse  bool // evaluated only when it does not
+	pingback bool // pingback verifier: unmet until a matching request has been seen since the last reset
+	seen     bool
 	reqFail  int
 	resFail  int
 }
@@ -40,6 +44,7 @@ var shapes = []struct {
 	{`{"fifo.Group": {"modifiers": [{"fifo.Group": {"modifiers": [` + hv + `]}}, ` + sv + `]}}`, []vmodel{{}, {status: true}}},
 	{`{"header.Filter": {"name": "X-Cond", "value": "1", "modifier": ` + hv + `, "else": ` + hv2 + `}}`, []vmodel{{onTrue: true}, {onFalse: true, second: true}}},
 	{`{"fifo.Group": {"modifiers": [{"header.Filter": {"name": "X-Cond", "value": "1", "modifier": ` + sv + `, "else": ` + hv + `}}]}}`, []vmodel{{status: true, onTrue: true}, {onFalse: true}}},
+	{`{"fifo.Group": {"modifiers": [{"fifo.Group": {"modifiers": [` + pb + `]}}, ` + hv + `]}}`, []vmodel{{pingback: true}, {}}},
 }
 
 func flatCount(err error, tag string) int {
@@ -63,6 +68,10 @@ func flatCount(err error, tag string) int {
 func VerifC13History() {
 	sh := shapes[vf.Choice("shape", len(shapes))]
 	vs := append([]vmodel(nil), sh.vs...)
+	hasPingback := false
+	for _, v := range vs {
+		hasPingback = hasPingback || v.pingback
+	}
 	m := NewModifier()
 	vf.Assert(post(m, sh.cfg) == 200, "configuration-accepted")
 	ops := vf.Param("ops")
@@ -74,7 +83,11 @@ func VerifC13History() {
 			rexp, rexp2 := vf.String("res-x-exp", 1), vf.String("res-x-exp2", 1)
 			ok200 := vf.Bool("status-200")
 			api := vf.Bool("api-request")
-			req := &http.Request{Method: "GET", URL: &url.URL{Scheme: "http", Host: "h", Path: "/"}, Host: "h", Proto: "HTTP/1.1", ProtoMajor: 1, ProtoMinor: 1,
+			path := "/"
+			if hasPingback && vf.Bool("request-is-the-pingback") {
+				path = "/ping"
+			}
+			req := &http.Request{Method: "GET", URL: &url.URL{Scheme: "http", Host: "h", Path: path}, Host: "h", Proto: "HTTP/1.1", ProtoMajor: 1, ProtoMinor: 1,
 				Header: http.Header{"X-Exp": {exp}, "X-Exp2": {exp2}, "X-Cond": {cond}}, Body: ioutil.NopCloser(bytes.NewReader(nil))}
 			ctx, remove, err := martian.TestContext(req, nil, nil)
 			vf.Assert(err == nil, "test-context")
@@ -95,6 +108,12 @@ func VerifC13History() {
 				for k := range vs {
 					v := &vs[k]
 					if (v.onTrue && cond != "1") || (v.onFalse && cond == "1") {
+						continue
+					}
+					if v.pingback {
+						if path == "/ping" {
+							v.seen = true
+						}
 						continue
 					}
 					if v.status {
@@ -122,6 +141,9 @@ func VerifC13History() {
 			want := 0
 			for _, v := range vs {
 				want += v.reqFail
+				if v.pingback && !v.seen {
+					want++
+				}
 			}
 			vf.Assert(n == want, "request-query:one-error-per-unmet-expectation-since-reset")
 			vf.Reach("query")
@@ -137,10 +159,15 @@ func VerifC13History() {
 		case 3:
 			m.ResetRequestVerifications()
 			vf.WatchOff()
+			initial := 0
 			for k := range vs {
 				vs[k].reqFail = 0
+				vs[k].seen = false
+				if vs[k].pingback {
+					initial++
+				}
 			}
-			vf.Assert(m.VerifyRequests() == nil, "request-reset-returns-every-verifier-to-initial-state")
+			vf.Assert(flatCount(m.VerifyRequests(), "request-query-after-reset") == initial, "request-reset-returns-every-verifier-to-initial-state")
 			vf.Reach("reset")
 		case 4:
 			m.ResetResponseVerifications()
@@ -157,6 +184,9 @@ func VerifC13History() {
 	for _, v := range vs {
 		wantReq += v.reqFail
 		wantRes += v.resFail
+		if v.pingback && !v.seen {
+			wantReq++
+		}
 	}
 	for k := 0; k < 2; k++ {
 		vf.WatchOn()
